@@ -107,6 +107,7 @@ loop:
 				skipped++
 			}
 			t.db.walBuffers.Put(read.data)
+			verifProcessed(t, read.offset, read.source)
 			delta := time.Now().Sub(start)
 			if delta > 1*time.Minute {
 				t.log.Debugf("Read %v at %v per second", humanize.Bytes(uint64(bytesRead)), humanize.Bytes(uint64(float64(bytesRead)/delta.Seconds())))
